@@ -26,6 +26,11 @@ def main() -> None:
     except MachineryFailure as err:
         print(f'MACHINERY-FAILURE: {err}', file=sys.stderr)
         sys.exit(2)
+    except Exception as err:      # noqa: BLE001  - an unexpected exception is never a verdict
+        import traceback
+        traceback.print_exc()
+        print(f'MACHINERY-FAILURE: unexpected {type(err).__name__}: {err}', file=sys.stderr)
+        sys.exit(2)
     sys.exit(code)
 
 
